@@ -286,7 +286,7 @@ func (w *World) Apply(ev Event) bool {
 			return false
 		}
 		m := w.MsgOfTx(ev.N, ev.Tx)
-		if len(m.Snd) != 32 || len(m.Rcv) != 32 || m.DstShard == vmcommon.MetachainShardId {
+		if len(m.Snd) != 32 || len(m.Rcv) != 32 || m.DstShard == spec.MetaShard {
 			// the node's interceptors refuse transactions whose sender or receiver is not an address
 			return false
 		}
